@@ -827,7 +827,6 @@ def classes_of(F, text, outcome, rec, injected):
     m, n = F['shape']
     cl = set()
     data = F['data']
-    allnum = np.concatenate([data, F['obj'], F['const']]) if len(data) else np.concatenate([F['obj'], F['const']])
     if np.any(data < 0):
         cl.add('coef-negative')
     if np.any((np.abs(data) > 0) & (np.abs(data) <= 1e-8)):
@@ -882,16 +881,18 @@ def classes_of(F, text, outcome, rec, injected):
         cl.add('objective-negative-coef')
     if not np.any(F['obj'] != 0):
         cl.add('objective-all-zero')
-    if re.search(r'\d[eE][-+]\d', text):
+    # classes of the INPUT (not of the text, which a defective writer may distort)
+    shown = [float(v) for arr in (data, F['obj'], F['const']) for v in arr]
+    if any('e' in repr(abs(v)) for v in shown if v not in (INF, -INF)):
         cl.add('exponent-notation-in-text')
-    if re.search(r'\de-\d', text):
+    if any('e-' in repr(abs(v)) for v in shown if v not in (INF, -INF)):
         cl.add('negative-exponent-in-text')
-    if re.search(r'^ c\d+: - ', text, re.M):
-        cl.add('row-leading-minus')
-    if re.search(r'^ obj: - ', text, re.M):
+    for i in range(m):
+        if F['indptr'][i + 1] > F['indptr'][i] and data[F['indptr'][i]] < 0:
+            cl.add('row-leading-minus')
+    nzobj = [v for v in F['obj'] if v != 0]
+    if nzobj and nzobj[0] < 0:
         cl.add('objective-leading-minus')
-    if re.search(r'^ obj: *$', text, re.M):
-        cl.add('objective-empty-in-text')
     cl.add('cls-' + F['cls'])
     cl.add('mode-' + rec['mode'])
     cl.add('dir-' + rec['dir'])
